@@ -5,6 +5,7 @@ import (
 	"fmt"
 	"net"
 	"os"
+	"strings"
 	"sync"
 	"sync/atomic"
 	"time"
@@ -25,7 +26,7 @@ func init() {
 		Phases: func(tier string, seed int64) []Phase {
 			return []Phase{{Name: "cycles", Run: c09Run}, {Name: "cycles-tls-listener", Run: c09Run, Arg: "tls"}}
 		},
-		MinObserved: []string{"requests_tagged", "reconnects_after_close", "onclose_ids_matched", "accept_failure_episodes", "starttls_upgraded_connections", "short_lived_connections", "router_replaced_while_serving"},
+		MinObserved: []string{"requests_tagged", "reconnects_after_close", "onclose_ids_matched", "accept_failure_episodes", "starttls_upgraded_connections", "short_lived_connections", "router_replaced_while_serving", "connection_ids_read_again_after_the_client_left", "other_servers_started_in_the_same_process"},
 	})
 }
 
@@ -51,6 +52,7 @@ func c09Run(c *Ctx) {
 		}
 		idTag[id] = tag
 	}
+	var lateReads atomic.Int64
 	handler := func(w *gldap.ResponseWriter, r *gldap.Request) {
 		o := observe("", r)
 		tag := ""
@@ -62,6 +64,12 @@ func c09Run(c *Ctx) {
 		}
 		if tag != "" {
 			record(tag, r.ConnectionID())
+		}
+		if o.Kind == "search" && strings.HasPrefix(tag, "tag=late-reader-") {
+			// a handler that asks for the connection's ID again at its end - by which time the client has gone
+			time.Sleep(30 * time.Millisecond)
+			record(tag, r.ConnectionID())
+			lateReads.Add(1)
 		}
 		replyFor(o, w, r)
 	}
@@ -232,6 +240,65 @@ func c09Run(c *Ctx) {
 			closedTags <- keepTag
 		}
 		c.Count("router_replaced_while_serving", 1)
+	}
+	// handlers that read ConnectionID() again after their client has hung up (close, reset, Unbind): still the same ID
+	for k := 0; k < c.N(30, 300); k++ {
+		tag := fmt.Sprintf("tag=late-reader-%d", k)
+		kc, err := dialRaw(srv.Addr, ctc)
+		if err != nil {
+			continue
+		}
+		connCtr.Add(1)
+		totalConns++
+		kc.Send(sber.Message(1, sber.BindRequest(3, []byte(tag), []byte("p")), nil).Encode())
+		if _, err := kc.ReadMsg(patience); err != nil {
+			kc.Close()
+			continue
+		}
+		before := lateReads.Load()
+		kc.Send(sber.Message(2, sber.Search{Base: []byte(tag), Scope: 2, Filter: sber.PresentFilter("cn"), Attrs: [][]byte{}}.Node(), nil).Encode())
+		time.Sleep(3 * time.Millisecond) // the request is being handled; now the client goes away
+		switch k % 3 {
+		case 0:
+			kc.Close()
+		case 1:
+			kc.Reset()
+		default:
+			kc.Send(sber.Message(3, sber.UnbindRequest(), nil).Encode())
+			kc.Close()
+		}
+		for dl := time.Now().Add(2 * time.Second); lateReads.Load() == before && time.Now().Before(dl); time.Sleep(time.Millisecond) {
+		}
+		if lateReads.Load() > before {
+			c.Count("connection_ids_read_again_after_the_client_left", 1)
+		}
+		closedTags <- tag
+	}
+	// another server is started in the same process while this one keeps accepting: its connections are its own
+	// business, this server's sequence of IDs is not
+	if other, err := startSrv(SrvCfg{}, func(m *gldap.Mux) {
+		m.Bind(func(w *gldap.ResponseWriter, r *gldap.Request) { w.Write(r.NewBindResponse(gldap.WithResponseCode(0))) })
+	}); err == nil {
+		for k := 0; k < 3; k++ {
+			if oc, err := dialRaw(other.Addr, nil); err == nil {
+				oc.Send(sber.Message(1, sber.BindRequest(3, []byte("cn=elsewhere"), []byte("p")), nil).Encode())
+				oc.ReadMsg(patience)
+				oc.Close()
+			}
+		}
+		for k := 0; k < 6; k++ {
+			tag := fmt.Sprintf("tag=after-another-server-started-%d", k)
+			if kc, err := dialRaw(srv.Addr, ctc); err == nil {
+				connCtr.Add(1)
+				totalConns++
+				kc.Send(sber.Message(1, sber.BindRequest(3, []byte(tag), []byte("p")), nil).Encode())
+				kc.ReadMsg(patience)
+				kc.Close()
+				closedTags <- tag
+			}
+		}
+		c.Count("other_servers_started_in_the_same_process", 1)
+		defer other.StopWithin(patience)
 	}
 	// connections that are upgraded with StartTLS in the middle: the ID must not change across the upgrade
 	nStartTLS := c.N(30, 400)
